@@ -40,10 +40,10 @@ static int zv_broadcast(pthread_cond_t* c);
 #define ZSTD_pthread_mutex_unlock(a) zv_unlock(a)
 #define ZSTD_pthread_cond_wait(a, b) zv_wait((a), (b))
 #define ZSTD_pthread_create(a, b, c, d) zv_create((a), (b), (c), (d))
-#include "../../repo/lib/common/pool.c"
+#include "pool.c"   /* found through -I<repo>/… (tools/build.py), so that ZV_REPO can point at another checkout */
 static int zv_tryAdd(POOL_ctx* ctx, POOL_function fn, void* arg);
 #define POOL_tryAdd(c, f, a) zv_tryAdd((c), (f), (a))
-#include "../../repo/lib/compress/zstdmt_compress.c"
+#include "zstdmt_compress.c"   /* found through -I<repo>/… (tools/build.py), so that ZV_REPO can point at another checkout */
 #undef POOL_tryAdd
 #include "zvh_common.h"
 
